@@ -261,6 +261,14 @@ class Program:
         self.renames, self.rename_notes = renames.find_renames(raws)
         if self.renames:
             raws = {f: renames.rewrite(raw, self.renames) for f, raw in raws.items()}
+        # helper functions that do not exist in the reference tree are inlined into their callers (tdq/inline.py)
+        try:
+            from . import inline
+            backup = None
+            notes = inline.inline_new_functions(raws) if os.environ.get("TDQ_NO_INLINE") != "1" else []
+            self.rename_notes = list(self.rename_notes) + notes
+        except Exception as e:      # never let the normalisation itself break a run
+            self.rename_notes = list(self.rename_notes) + ["inlining of new helper functions failed (%r); analysed as written" % (e,)]
         for f in FACT_FILES:
             if f not in raws:
                 continue
